@@ -546,6 +546,8 @@ class Sym:
         t = type(o)
         if t is Sym:
             return o
+        if t is list or t is tuple:
+            return NotImplemented
         if t is float or t is int or t is np.float64:
             return Sym(Poly.const(o), ZERO, t is int)
         if isinstance(o, _CPLX_TYPES):
@@ -644,6 +646,8 @@ class Sym:
         return Sym(_div(self.re, o.re), _div(self.im, o.re))
 
     def __rtruediv__(self, o):
+        if isinstance(o, (list, tuple)):
+            o = np.asarray(o, dtype=object)       # numpy scalars accept list operands the same way
         if isinstance(o, np.ndarray):
             r = _bcast(self, o, lambda a, b: b / a)
             if not self.is_const() and self.isreal():
@@ -902,6 +906,38 @@ def _floordivmod(a: Sym, b: Sym):
     return CTX.def_divmod(a, b)
 
 
+def poly_interval(p: Poly):
+    """interval enclosure of p over the atom boxes (None when an atom is unbounded)"""
+    lo = hi = F0
+    for m, c in p.t.items():
+        tlo = thi = F1
+        for i in m:
+            a = REG.atoms[i]
+            if a.lo is None or a.hi is None:
+                return None
+            alo, ahi = frac(a.lo), frac(a.hi)
+            cands = [tlo * alo, tlo * ahi, thi * alo, thi * ahi]
+            tlo, thi = min(cands), max(cands)
+        if c >= 0:
+            lo += c * tlo
+            hi += c * thi
+        else:
+            lo += c * thi
+            hi += c * tlo
+    return lo, hi
+
+
+def div_parts(x):
+    """(numerator, denominator) polynomials when x is exactly a quotient atom, else None"""
+    x = Sym.of(x)
+    if x.im.t or len(x.re.t) != 1:
+        return None
+    (m, c), = x.re.t.items()
+    if len(m) != 1 or c != 1:
+        return None
+    return CTX.div_info.get(m[0])
+
+
 def sym_real(name, lo=None, hi=None) -> Sym:
     return Sym(Poly.atom(REG.get(name, "real", lo, hi)))
 
@@ -979,6 +1015,9 @@ class Ctx:
         self.stats = {"branch_queries": 0, "branch_time": 0.0, "branch_unknown": 0}
         self.active = False
         self.max_int_values = 64
+        self.eager_ite = False
+        self.exact_branching = False    # branch feasibility on the exact (non-linear) path condition: only for tiny problems
+        self.div_info = {}
 
     def reset_path(self):
         self.trace = []
@@ -995,6 +1034,8 @@ class Ctx:
             self.monos.add(m)
             if self.feas is not None:
                 self._feas_mono_bounds(m)
+                if self.exact_branching:
+                    self.feas.add(mono_def(m))
 
     def _feas_mono_bounds(self, m):
         # sign / magnitude facts that keep the relaxation useful: even powers are >= 0,
@@ -1032,17 +1073,44 @@ class Ctx:
         hit = self.memo.get(key)
         if hit is not None:
             return hit
+        if self.eager_ite and self.active and self.feas is not None:
+            # if the path condition already decides the condition, no definitional atom is needed (sound simplification)
+            ck = ("cond", bkey(c))
+            dec = self.memo.get(ck)
+            if dec is None:
+                cz = c.z3()
+                ft = self._check(cz)
+                ff = self._check(z3.Not(cz)) if ft else True
+                dec = "T" if (ft and not ff) else ("F" if (ff and not ft) else "?")
+                self.memo[ck] = dec
+            if dec == "T":
+                return x
+            if dec == "F":
+                return y
         r = self._def_ite(c, x, y)
         self.memo[key] = r
         return r
 
     def _def_ite(self, c: SBool, x: Poly, y: Poly) -> Poly:
+        ix, iy = poly_interval(x), poly_interval(y)
         a = self.fresh("ite", ev=lambda env, c=c, x=x, y=y: x.eval(env) if c.eval(env) else y.eval(env))
+        if ix is not None and iy is not None:
+            a.lo, a.hi = min(ix[0], iy[0]), max(ix[1], iy[1])
         cz = c.z3()
         self.add_def(z3.And(z3.Implies(cz, a.z3v == x.z3()), z3.Implies(z3.Not(cz), a.z3v == y.z3())))
         return Poly.atom(a)
 
     def def_div(self, n: Poly, d: Poly) -> Poly:
+        # n == c*d syntactically  =>  the quotient is the constant c (d != 0 is still checked on the path)
+        if len(n.t) == len(d.t) and n.t.keys() == d.t.keys():
+            it = iter(d.t.items())
+            k0, v0 = next(it)
+            c = n.t[k0] / v0
+            if all(n.t[k] == c * v for k, v in d.t.items()):
+                nz = _cmp0(d, "ne")
+                if not bool(nz):
+                    raise ZeroDivisionError("symbolic division by a term that is zero on this path")
+                return Poly.const(c)
         key = ("div", pkey(n), pkey(d))
         hit = self.memo.get(key)
         if hit is not None:
@@ -1064,7 +1132,15 @@ class Ctx:
             return Fraction(nv) / Fraction(dv)
         a = self.fresh("div", ev=ev)
         q = Poly.atom(a)
+        self.div_info[a.id] = (n, d)
         prod = q.mul(d)
+        iv = poly_interval(d)
+        if iv is not None and iv[0] > 0:
+            # denominator provably within [dlo, dhi], dlo > 0:  n >= 0 -> dlo*q <= n <= dhi*q ;  n <= 0 -> dhi*q <= n <= dlo*q
+            dlo, dhi = _rv(iv[0]), _rv(iv[1])
+            nz0 = n.z3()
+            self.add_def(z3.And(z3.Implies(nz0 >= 0, z3.And(dlo * a.z3v <= nz0, dhi * a.z3v >= nz0)),
+                                z3.Implies(nz0 <= 0, z3.And(dhi * a.z3v <= nz0, dlo * a.z3v >= nz0))))
         # q*d == n : linear in the monomial variables; the monomial definitions make it exact.
         # Sign / magnitude facts (valid consequences) keep the relaxation sharp.
         nz_, dz_, qz_ = n.z3(), d.z3(), a.z3v
@@ -1259,6 +1335,29 @@ class PathResult:
         self.ndef = ctx.ndef
 
 
+def mono_facts(monos):
+    """sound linear facts about monomial variables: even powers are non-negative, |mono| <= product of the atom bounds"""
+    out = []
+    for m in monos:
+        v = mono_z3(m)
+        cnt = {}
+        for i in m:
+            cnt[i] = cnt.get(i, 0) + 1
+        if all(c % 2 == 0 for c in cnt.values()):
+            out.append(v >= 0)
+        b = F1
+        for i in m:
+            a = REG.atoms[i]
+            if a.lo is None or a.hi is None:
+                b = None
+                break
+            b *= max(abs(frac(a.lo)), abs(frac(a.hi)))
+        if b is not None:
+            out.append(v <= _rv(b))
+            out.append(v >= _rv(-b))
+    return out
+
+
 def bounds_constraints(margin=0.0):
     out = []
     for a in REG.atoms:
@@ -1302,6 +1401,8 @@ def explore(fn, assume=(), max_paths=2000, time_budget=120.0, on_path=None):
             s.add(a.z3())
         for m in list(ctx.monos):
             ctx._feas_mono_bounds(m)
+            if ctx.exact_branching:
+                s.add(mono_def(m))
         ctx.active = True
         try:
             v = fn()
